@@ -108,7 +108,7 @@ Definition count_ids (n : N) (ids : list N) : list N :=
 (** per-sentence comparison of everything but the counters *)
 Definition sent_corr (d : dict) (o : options) (so : sentobs) : bool :=
   let s := compile (d_chars d) (so_chars so) in
-  list_eqb N.eqb (map N.of_nat (s_group s)) (so_group so)
+  ((so_outcome so =? 2)%N || list_eqb N.eqb (map N.of_nat (s_group s)) (so_group so))   (* nothing is read back after a panic *)
   && list_eqb cinfo_tuple_eqb (map cinfo_tuple (s_cinfos s)) (so_cinfos so)
   && match tokenize_fresh d o (so_chars so) with
      | Done (ts, L, eos) =>
